@@ -164,7 +164,7 @@ def byz_request(g, mid, kind=None):
 
         msg = expected_message(m, a, mid)
         if getattr(g, "versions", False) and r.random() < 0.25:
-            msg["version"] = r.choice([2, 2, 2, 1, 4, 0, 127])
+            msg["version"] = 2
         return msg
     if kind == "SearchRequest":
         from .values import expected_message
